@@ -336,26 +336,51 @@ func goVersionAtLeast(gomod string, maj, min int) bool {
 func factsEdits(w *strings.Builder) {
 	f := parseFile("pkg/cdi/container-edits.go")
 	consts := stringConsts(f)
-	val := findVarValue(f, "validHookNames")
-	cl, ok := val.(*ast.CompositeLit)
-	if !ok {
-		die("container-edits.go: validHookNames is not a composite literal")
-	}
+	// the hook names Hook.Validate accepts: keys of the `validHookNames` map literal, or — if the set is
+	// written as a predicate — the case constants of a function named like isValidHookName
 	var hooks []string
-	for _, e := range cl.Elts {
-		kv, ok := e.(*ast.KeyValueExpr)
-		if !ok {
-			die("container-edits.go: validHookNames element shape")
-		}
-		switch k := kv.Key.(type) {
+	addHook := func(e ast.Expr) {
+		switch k := e.(type) {
 		case *ast.Ident:
-			hooks = append(hooks, consts[k.Name])
+			if v, ok := consts[k.Name]; ok {
+				hooks = append(hooks, v)
+			}
 		case *ast.BasicLit:
-			s, _ := strconv.Unquote(k.Value)
-			hooks = append(hooks, s)
-		default:
-			die("container-edits.go: validHookNames key shape")
+			if s, err := strconv.Unquote(k.Value); err == nil {
+				hooks = append(hooks, s)
+			}
 		}
+	}
+	if cl, ok := findVarValue(f, "validHookNames").(*ast.CompositeLit); ok {
+		for _, e := range cl.Elts {
+			if kv, ok := e.(*ast.KeyValueExpr); ok {
+				addHook(kv.Key)
+			} else {
+				addHook(e)
+			}
+		}
+	} else {
+		for _, d := range f.Decls {
+			fd, ok := d.(*ast.FuncDecl)
+			if !ok || fd.Body == nil {
+				continue
+			}
+			ln := strings.ToLower(fd.Name.Name)
+			if !(strings.Contains(ln, "hook") && strings.Contains(ln, "name") && strings.Contains(ln, "valid")) {
+				continue
+			}
+			ast.Inspect(fd.Body, func(n ast.Node) bool {
+				if cc, ok := n.(*ast.CaseClause); ok {
+					for _, e := range cc.List {
+						addHook(e)
+					}
+				}
+				return true
+			})
+		}
+	}
+	if len(hooks) == 0 {
+		die("container-edits.go: the set of valid hook names was not found (map literal validHookNames or a predicate function)")
 	}
 	fmt.Fprintf(w, "/-- F4: keys of `validHookNames`. -/\ndef hookNames : List String := %s\n", leanStrList(hooks))
 
@@ -403,6 +428,35 @@ func factsEdits(w *strings.Builder) {
 			if (t.Op == token.EQL || t.Op == token.NEQ) && isTypeField(t.X) {
 				addT(t.Y)
 			}
+		case *ast.CallExpr:
+			// a predicate applied to the Type field: its case constants / set literal
+			passesType := false
+			for _, a := range t.Args {
+				if isTypeField(a) {
+					passesType = true
+				}
+			}
+			if id, ok := t.Fun.(*ast.Ident); ok && passesType {
+				if callee := findFunc(f, id.Name); callee != nil && callee.Body != nil {
+					ast.Inspect(callee.Body, func(m ast.Node) bool {
+						switch c := m.(type) {
+						case *ast.CaseClause:
+							for _, e := range c.List {
+								addT(e)
+							}
+						case *ast.CompositeLit:
+							for _, e := range c.Elts {
+								if kv, ok := e.(*ast.KeyValueExpr); ok {
+									addT(kv.Key)
+								} else {
+									addT(e)
+								}
+							}
+						}
+						return true
+					})
+				}
+			}
 		}
 		return true
 	})
@@ -417,7 +471,12 @@ func factsEdits(w *strings.Builder) {
 		die("container-edits.go: (*ContainerEdits).Apply not found")
 	}
 	var arms []string
-	ast.Inspect(ap.Body, func(n ast.Node) bool {
+	// the dispatch on the hook name: in Apply itself or in a helper of the same file
+	_ = ap
+	ast.Inspect(f, func(n ast.Node) bool {
+		if len(arms) > 0 {
+			return false
+		}
 		sw, ok := n.(*ast.SwitchStmt)
 		if !ok {
 			return true
@@ -450,17 +509,24 @@ func factsEdits(w *strings.Builder) {
 				})
 			}
 			for _, e := range cc.List {
-				id, ok := e.(*ast.Ident)
-				if !ok {
+				name := ""
+				if id, ok := e.(*ast.Ident); ok {
+					name = consts[id.Name]
+				} else if s, ok := strLit(e); ok {
+					name = s
+				} else {
 					die("container-edits.go: Apply hook case is not a constant")
 				}
-				arms = append(arms, "("+leanStr(consts[id.Name])+", "+leanStr(strings.ToLower(target))+")")
+				if target == "" {
+					continue // a switch on the hook name that adds nothing (e.g. a validity predicate)
+				}
+				arms = append(arms, "("+leanStr(name)+", "+leanStr(strings.ToLower(target))+")")
 			}
 		}
 		return false
 	})
 	if len(arms) == 0 {
-		die("container-edits.go: no `switch h.HookName` in Apply")
+		die("container-edits.go: no switch on the hook name that adds hooks to the OCI spec")
 	}
 	fmt.Fprintf(w, "/-- F4: `Apply`'s hook dispatch: hook name -> OCI hook list (lower-cased). -/\ndef hookDispatch : List (String × String) := [%s]\n", strings.Join(arms, ", "))
 }
